@@ -103,3 +103,31 @@ fn policy_add_respects_contract() {
     }
     });
 }
+
+/// [C13, C20] the policy hands `num_counters` to its estimator unchanged: the sample window of a policy built for n counters is n
+/// (every n, odd ones and 1 included), and recording n accesses through the policy's estimator ages it exactly once.
+#[test]
+fn policy_window_is_num_counters() {
+    if !only("policy_window_is_num_counters") { return; }
+    guarded("policy_window_is_num_counters", || {
+    for n in (1usize..70).chain([100, 127, 128, 1000, 1023]) {
+        let p = match LFUPolicy::new(n, 10) { Ok(p) => p, Err(e) => {
+            fail("policy_window_is_num_counters", "C20:inner.with_hasher.rejects-only-zero-counters", &["C20", "C13"], "PolicyInner::with_hasher", format!("LFUPolicy::new({}, 10)", n), format!("Err({})", e), "Ok".into()); return; } };
+        let mut inner = p.inner.lock();
+        if inner.admit.samples != n {
+            fail("policy_window_is_num_counters", "C13:inner.with_hasher.window-is-num-counters", &["C13", "C07"], "PolicyInner::with_hasher", format!("LFUPolicy::new({}, 10)", n),
+                format!("sample window {}", inner.admit.samples), format!("{}", n));
+            return;
+        }
+        for _ in 0..n { inner.admit.increment(42); }
+        if inner.admit.w != 0 || inner.admit.contains(42) {
+            fail("policy_window_is_num_counters", "C13:inner.with_hasher.window-is-num-counters", &["C13", "C07"], "PolicyInner::with_hasher", format!("LFUPolicy::new({}, 10); {} recorded accesses of key 42", n, n),
+                format!("window position {} doorkeeper.contains(42) = {}", inner.admit.w, inner.admit.contains(42)), "aged: window restarted, doorkeeper emptied".into());
+            return;
+        }
+    }
+    if LFUPolicy::new(0, 10).is_ok() {
+        fail("policy_window_is_num_counters", "C20:inner.with_hasher.rejects-only-zero-counters", &["C20", "C13"], "PolicyInner::with_hasher", "LFUPolicy::new(0, 10)".into(), "Ok".into(), "Err(InvalidNumCounters)".into());
+    }
+    });
+}
